@@ -3,7 +3,7 @@
 property (and of the properties listed in EXTRA), record the outcome in meta.json, revert.
 usage: tools/seedmatrix.py [--copy] [--seeds 1,2,3] [--own] [id-prefix ...]
   --copy   work on a scratch copy of /repo (VERIF_REPO) instead of /repo itself, so that other
-           checks can run meanwhile; results go to stdout only (meta.json is not rewritten)
+           checks can run meanwhile; single-seed runs record the outcome in meta.json either way
   --seeds  run each check at several VERIF_SEED values
   --own    only the seeded change's own property"""
 import json, os, subprocess, sys, glob
@@ -43,9 +43,11 @@ for d in sorted(glob.glob(os.path.join(ROOT, "seeded", "*"))):
                 viol = [l for l in r.stdout.splitlines() if l.startswith("VIOLATION")]
                 key = pid if len(seeds) == 1 else "%s@seed%s" % (pid, sd)
                 res[key] = {"exit": r.returncode, "violation_lines": len(viol)}
-        if not COPY and len(seeds) == 1:
+        if len(seeds) == 1:
             meta["detected_by"] = res
             meta["ran"] = "git -C /repo apply seeded/%s/patch.diff; ./check <id> --tier quick (VERIF_SEED=1); git -C /repo checkout -- ." % k
+            if COPY:
+                meta["ran"] = "rsync copy of /repo's working tree -> scratch dir; git apply seeded/%s/patch.diff there; VERIF_REPO=<scratch> ./check <id> --tier quick (VERIF_SEED=%s); scratch dir removed" % (k, seeds[0])
             json.dump(meta, open(d + "/meta.json", "w"), indent=1)
         print(k, {p: v["exit"] for p, v in res.items()}, flush=True)
     finally:
